@@ -335,3 +335,134 @@ def gen_manifest_case(idx: int, up_levels_available: int) -> Dict[str, Any]:
         entries = (extra + entries) if r.random() < 0.5 else (entries + extra)
     return {"kind": "manifest", "idx": idx, "cls": cls, "offending": offending, "entries": entries,
             "via": ["expand", "expand", "expand", "newInstanceDirectory", "manifest_file"][idx % 5]}
+
+
+# ------------------------------------------------------------- directory references (:link/:copy/:copyout)
+
+DIRREF_SOURCES = {
+    # key: (reference without method, category, last path element, path relative to the instance directory)
+    "A_results": ("stage0.pa/results", "component", "results", "stages/stage0/pa/results"),
+    "B_results": ("stage0.pb/results", "component", "results", "stages/stage0/pb/results"),
+    "B_other": ("stage0.pb/other", "component", "other", "stages/stage0/pb/other"),
+    "A_whole": ("stage0.pa", "component", "pa", "stages/stage0/pa"),
+    "P_results": ("data/ra/results", "direct", "results", "data/ra/results"),
+    "Q_results": ("data/rb/results", "direct", "results", "data/rb/results"),
+    "Q_tables": ("data/rb/tables", "direct", "tables", "data/rb/tables"),
+}
+DIRREF_METHODS = ("link", "copy", "copyout")
+DIRREF_DEST_KINDS = ("absent", "file", "directory", "symlink_inside", "symlink_outside")
+
+
+def dirref_consumers() -> List[Dict[str, Any]]:
+    """The consumer components of the directory-reference experiment: every ordered pair of methods
+    over source pairs with equal last path elements (component/component, package/package,
+    package declared before component, component declared before package) and with different ones,
+    every method alone, and two triples.  Deterministic (part of the FlowIR of the experiment)."""
+    pairs = [("A_results", "B_results"), ("P_results", "Q_results"), ("P_results", "B_results"), ("A_results", "Q_results"),
+             ("A_results", "B_other"), ("P_results", "Q_tables"), ("A_whole", "Q_tables")]
+    out: List[List[List[str]]] = []
+    for s1, s2 in pairs:
+        for m1 in DIRREF_METHODS:
+            for m2 in DIRREF_METHODS:
+                out.append([[s1, m1], [s2, m2]])
+    for s in ("A_results", "P_results", "A_whole"):
+        for m in DIRREF_METHODS:
+            out.append([[s, m]])
+    out.append([["A_results", "link"], ["B_other", "copy"], ["B_results", "copyout"]])
+    out.append([["P_results", "link"], ["Q_tables", "link"], ["B_results", "copy"]])
+    return [{"name": "k%02d" % i, "refs": refs} for i, refs in enumerate(out)]
+
+
+def dirref_flowir() -> str:
+    lines = ["components:"]
+    for p in ("pa", "pb"):
+        lines += ["- name: %s" % p, "  command:", "    executable: echo", "    arguments: produce"]
+    for c in dirref_consumers():
+        lines += ["- name: %s" % c["name"], "  command:", "    executable: echo", "    arguments: consume", "  references:"]
+        lines += ["  - %s:%s" % (DIRREF_SOURCES[s][0], m) for s, m in c["refs"]]
+    return "\n".join(lines) + "\n"
+
+
+def _dir_contents(r, tag: str) -> List[Dict[str, Any]]:
+    """Entries (relative to the source directory) of one generated source directory: files, nested
+    directories, symlinks that stay inside the source and symlinks that point out of it."""
+    out: List[Dict[str, Any]] = [{"name": "energies.csv", "data": "output of %s" % tag}]
+    for i in range(r.randint(0, 3)):
+        c = r.random()
+        if c < 0.35:
+            out.append({"name": r.choice(ODD_NAMES[:10] + ["extra.log", "f%d.dat" % i]), "data": "%s file %d" % (tag, i)})
+        elif c < 0.65:
+            d = "/".join("n%d" % k for k in range(r.randint(1, 3)))
+            out.append({"name": d, "kind": "dir"})
+            out.append({"name": d + "/deep_%s.txt" % tag, "data": "deep %s" % tag})
+        elif c < 0.8:
+            out.append({"name": "inner_link_%d" % i, "kind": "sym", "target": "energies.csv"})
+        elif c < 0.9:
+            out.append({"name": "outward_dir_%d" % i, "kind": "sym", "target": "<OUTSIDE>"})
+        else:
+            out.append({"name": "outward_file_%d" % i, "kind": "sym", "target": "<OUTSIDE>/victim.txt"})
+    return out
+
+
+def gen_dirref_case(idx: int) -> Dict[str, Any]:
+    """One staging of one consumer: which consumer (hence which references, methods, declaration order),
+    what its source directories contain, and what already exists in the working directory under the last
+    path element of one of its references (left by an earlier staging): nothing / a file / a directory /
+    a symlink to a directory inside the working directory / a symlink to a directory OUTSIDE of it.
+
+    Staging order (Job.stageIn as documented: 'copy'/'link' references first, 'copyout' references in a second
+    phase; references to package/instance files before references to components; otherwise as declared).
+    offending True (literal execution writes outside the working directory, by construction):
+      * the name is a pre-existing symlink to an outside directory and every reference with that last path
+        element is a directory :copy/:copyout (the copy would be made through the link);
+      * nothing pre-exists under that name, and a :link reference is certainly staged before a :copy/:copyout
+        reference with the same last path element (the copy would be made through the staged link into
+        the link's source directory).
+    offending False: all last path elements differ and nothing pre-exists under any of them.
+    Otherwise None (confinement only)."""
+    r = vlib.rng("C18", "dirref", idx)
+    consumers = dirref_consumers()
+    n = len(consumers)
+    cons = consumers[idx % n]
+    dest_kind = DIRREF_DEST_KINDS[(idx // n + idx % n) % len(DIRREF_DEST_KINDS)]
+    refs = [{"source": s, "method": m, "reference": "%s:%s" % (DIRREF_SOURCES[s][0], m),
+             "category": DIRREF_SOURCES[s][1], "basename": DIRREF_SOURCES[s][2]} for s, m in cons["refs"]]
+    which = r.randrange(len(refs))
+    pre_name = refs[which]["basename"] if dest_kind != "absent" else None
+    basenames = [x["basename"] for x in refs]
+    equal = len(set(basenames)) < len(basenames)
+
+    def phase(x):
+        return (1 if x["method"] == "copyout" else 0, 0 if x["category"] == "direct" else 1)
+
+    offending: Optional[bool] = None
+    reason = ""
+    if dest_kind == "symlink_outside":
+        if all(x["method"] in ("copy", "copyout") for x in refs if x["basename"] == pre_name):
+            offending, reason = True, "copy_through_preexisting_outward_link"
+    elif dest_kind == "absent":
+        if not equal:
+            offending = False
+        else:
+            for i, a in enumerate(refs):
+                for j, b in enumerate(refs):
+                    if a["basename"] == b["basename"] and a["method"] == "link" and b["method"] in ("copy", "copyout"):
+                        pa, pb = phase(a), phase(b)
+                        if pa < pb or (pa == pb and i < j):
+                            # nothing else may claim the name before the link does
+                            earlier = [c for k, c in enumerate(refs) if c["basename"] == a["basename"] and c is not a and
+                                       (phase(c) < pa or (phase(c) == pa and k < i))]
+                            if not earlier:
+                                offending, reason = True, "copy_through_staged_link_of_same_name"
+    # any other occupied name (file, directory, symlink to inside): whether the reference is refused or merged into
+    # what is there is not judged, only confinement
+    sources = sorted({x["source"] for x in refs} | ({"A_results"} if any(x["source"] == "A_whole" for x in refs) else set()))
+    contents = {s: _dir_contents(r, s) for s in sources if s != "A_whole"}
+    methods = "+".join(x["method"] for x in refs)
+    shape = "equal" if equal else "different"
+    cats = "+".join(x["category"][0] for x in refs)
+    return {"kind": "dirrefs", "family": "dirrefs", "idx": idx, "component": cons["name"], "refs": refs,
+            "dest_kind": dest_kind, "pre_name": pre_name, "offending": offending, "offending_reason": reason,
+            "contents": contents, "outside_target": r.choice(["input", "other_producer"]),
+            "link_spelling": r.choice(["abs", "rel"]),
+            "cls": "dirrefs_%s_%s_%s_%s" % (methods, shape, cats, dest_kind)}
